@@ -516,7 +516,15 @@ ObsApi(o, e) ==
         o2 == FlagIf(o1, e.st0.status = "Disc" /\ e.st1.status \notin {"Disc", "Gone"}, <<"C12", "Absorbing">>)
         \* new_local_client hands out a NEW client object: what was known about the old one no longer applies
         o3 == IF e.call = "new_local_client" /\ <<c, "C">> \in DOMAIN o2.ep THEN [o2 EXCEPT !.ep[<<c, "C">>] = NewEp] ELSE o2
-    IN EpSeen(o3, e)
+        \* the other local-client calls act on the client object as well (cst1 = its projection after the call):
+        \* a disconnected client stays disconnected with its first reason whatever the server does with it
+        k == <<c, "C">>
+        o4 == IF "cst1" \in DOMAIN e /\ e.call # "new_local_client" /\ k \in DOMAIN o3.ep
+              THEN LET was == o3.ep[k] IN
+                   FlagIf([o3 EXCEPT !.ep[k].status = e.cst1.status, !.ep[k].reason = e.cst1.reason, !.ep[k].seen = TRUE],
+                          was.seen /\ was.status = "Disc" /\ (e.cst1.status # "Disc" \/ e.cst1.reason # was.reason), <<"C12", "Absorbing">>)
+              ELSE o3
+    IN EpSeen(o4, e)
 
 ObsGetEvent(o, e) ==
     IF ~e.res.some \/ e.res.id \notin DOMAIN o.srv THEN o ELSE
